@@ -7,7 +7,7 @@ ASSUMPTIONS = A01 + ["Cantera and user recipes are opaque deterministic function
 TRUSTED = T01 + ["Cantera SolutionArray; pathos pool contract (replaced by the controllable pool in the harness)"]
 
 
-def tasks(tier):
+def _tasks0(tier):
     return chef_tasks("C11")
 
 
@@ -29,3 +29,10 @@ def scenarios(tier, seed):
 def run_scenario(p, wd):
     from harness.rt_chef import run_chef_scenario
     return run_chef_scenario(p, wd)
+
+
+
+def tasks(tier):
+    # the FAB header parsers / formatter (real bodies on canonical header text): the obligations behind the header contracts
+    from props.parsers import parser_tasks
+    return _tasks0(tier) + parser_tasks("C11", nds=(2, 3))
